@@ -26,8 +26,47 @@ impl<'a> SimdVisitorWithContext<u32, SimdAabb, u32> for DepthCtxVisitor<'a> {
 }
 
 use std::panic::{catch_unwind, AssertUnwindSafe};
+use std::sync::{Mutex, OnceLock};
+use std::sync::atomic::AtomicBool;
+use crate::p3::math::{Point, Real, SimdBool, SimdReal};
+use crate::p3::partitioning::{QbvhNode, SimdBestFirstVisitStatus, SimdBestFirstVisitor};
 
 const MAXU: u32 = u32::MAX;
+
+/// rayon pools with 1, 2 and 8 worker threads (the global pool has one thread per core)
+fn pool(k: usize) -> &'static rayon::ThreadPool {
+    static POOLS: OnceLock<Vec<rayon::ThreadPool>> = OnceLock::new();
+    let ps = POOLS.get_or_init(|| [1usize, 2, 8].iter().map(|n| rayon::ThreadPoolBuilder::new().num_threads(*n).build().unwrap()).collect());
+    &ps[match k { 1 => 0, 2 => 1, _ => 2 }]
+}
+
+/// exact squared distance from a point to a box (0 inside)
+fn dist2(p: &Point<Real>, b: &Aabb) -> f64 {
+    let mut s = 0.0;
+    for k in 0..3 { let d = (b.mins[k] - p[k]).max(0.0).max(p[k] - b.maxs[k]); s += d * d; }
+    s
+}
+
+/// best-first visitor: internal lanes are weighted by the distance to the stored lane box (a lower bound for everything
+/// below once the tree is refitted), leaf lanes by the distance to the leaf's CURRENT box; the result is the leaf id
+struct BfVisitor<'a> { p: Point<Real>, cur: &'a [Aabb] }
+impl<'a> SimdBestFirstVisitor<u32, SimdAabb> for BfVisitor<'a> {
+    type Result = u32;
+    fn visit(&mut self, best: Real, bv: &SimdAabb, data: Option<[Option<&u32>; SIMD_WIDTH]>) -> SimdBestFirstVisitStatus<u32> {
+        let mut w = [f64::MAX; SIMD_WIDTH]; let mut res = [None; SIMD_WIDTH]; let mut m = [false; SIMD_WIDTH];
+        for ii in 0..SIMD_WIDTH {
+            match &data {
+                Some(d) => if let Some(id) = d[ii] {
+                    if let Some(b) = self.cur.get(*id as usize) { w[ii] = dist2(&self.p, b); res[ii] = Some(*id); m[ii] = w[ii] < best; } }
+                None => { w[ii] = dist2(&self.p, &bv.extract(ii)); m[ii] = w[ii] < best; }
+            }
+        }
+        SimdBestFirstVisitStatus::MaybeContinue { weights: SimdReal::from(w), mask: SimdBool::from(m), results: res }
+    }
+}
+
+fn sorted_pairs(mut v: Vec<(u32, u32)>) -> String { v.sort(); v.iter().map(|(a, b)| format!("{}:{}", a, b)).collect::<Vec<_>>().join(" ") }
+fn sorted_ids(mut v: Vec<u32>) -> String { v.sort(); v.iter().map(|a| a.to_string()).collect::<Vec<_>>().join(" ") }
 
 fn canon(x: f64) -> u64 { if x.is_nan() { 0x7ff8000000000000 } else if x == 0.0 { 0 } else { x.to_bits() } }
 fn cf(b: u64) -> String { if b == 0x7ff8000000000000 { "nan".into() } else { format!("{:016x}", b) } }
@@ -154,6 +193,119 @@ pub fn exec(func: &str, a: &mut Args) -> String {
                 }
                 _ => "PANIC".into(),
             }
+        }
+        // EVERY simultaneous two-tree entry point, sequential and parallel, with the library's
+        // BoundingVolumeIntersectionsSimultaneousVisitor; each visited pair set is printed sorted (the parallel variants
+        // are schedule-dependent in order only)
+        "bvttall" => {
+            let (q1, _, _) = replay_cur(a, false);
+            let (q2, _, _) = replay_cur(a, false);
+            let pose = if a.b() { Some(d3::iso(a)) } else { None };
+            let (q1, q2) = match (q1, q2) { (Some(x), Some(y)) => (x, y), _ => return "PANIC".into() };
+            let r = catch_unwind(AssertUnwindSafe(|| {
+                let mut segs: Vec<String> = Vec::new();
+                // sequential entry points (FnMut visitor)
+                for which in 0..4 {
+                    let mut out: Vec<(u32, u32)> = Vec::new();
+                    {
+                        let mut cb = |x: &u32, y: &u32| { out.push((*x, *y)); true };
+                        let mut v = match pose { Some(m) => BoundingVolumeIntersectionsSimultaneousVisitor::with_relative_pos(m, &mut cb),
+                                                 None => BoundingVolumeIntersectionsSimultaneousVisitor::new(&mut cb) };
+                        let mut stack: Vec<(u32, u32)> = vec![(7, 9), (0, 0), (3, 1)];   // must be cleared by the callee
+                        match which {
+                            0 => q1.traverse_bvtt(&q2, &mut v),
+                            1 => q1.traverse_bvtt_with_stack(&q2, &mut v, &mut stack),
+                            2 => q1.traverse_modified_bvtt(&q2, &mut v),
+                            _ => q1.traverse_modified_bvtt_with_stack(&q2, &mut v, &mut stack),
+                        }
+                    }
+                    segs.push(format!("{} {}", ["seq", "stk", "mod", "mods"][which], sorted_pairs(out)));
+                }
+                // parallel entry points (Fn + Sync visitor)
+                for which in 0..5 {
+                    let out: Mutex<Vec<(u32, u32)>> = Mutex::new(Vec::new());
+                    {
+                        let cb = |x: &u32, y: &u32| { out.lock().unwrap().push((*x, *y)); true };
+                        let v = match pose { Some(m) => BoundingVolumeIntersectionsSimultaneousVisitor::with_relative_pos(m, cb),
+                                             None => BoundingVolumeIntersectionsSimultaneousVisitor::new(cb) };
+                        match which {
+                            0 => q1.traverse_bvtt_parallel(&q2, &v),
+                            1 => pool(1).install(|| q1.traverse_bvtt_parallel(&q2, &v)),
+                            2 => pool(2).install(|| q1.traverse_bvtt_parallel(&q2, &v)),
+                            3 => pool(8).install(|| q1.traverse_bvtt_parallel(&q2, &v)),
+                            _ => { if !q1.raw_nodes().is_empty() && !q2.raw_nodes().is_empty() {
+                                       let ee = AtomicBool::new(false); q1.traverse_bvtt_node_parallel(&q2, &v, &ee, (), (0, 0)); } }
+                        }
+                    }
+                    segs.push(format!("{} {}", ["par", "par1", "par2", "par8", "parn"][which], sorted_pairs(out.into_inner().unwrap())));
+                }
+                segs.join(" ")
+            }));
+            r.unwrap_or_else(|_| "PANIC".into())
+        }
+        // EVERY single-tree entry point: depth-first (node / with_stack / context node variant / parallel / node_parallel)
+        // with a box predicate, and best-first (root / node variant) with a point-distance visitor
+        "travall" => {
+            let (q, _, _) = replay_cur(a, false);
+            let bx = rd_box(a);
+            let _pt = d3::p(a);
+            let q = match q { Some(q) => q, None => return "PANIC".into() };
+            let r = catch_unwind(AssertUnwindSafe(|| {
+                let mut segs: Vec<String> = Vec::new();
+                for which in 0..2 {
+                    let mut o: Vec<u32> = Vec::new();
+                    { let mut cb = |x: &u32| { o.push(*x); true }; let mut v = BoundingVolumeIntersectionsVisitor::new(&bx, &mut cb);
+                      let mut stack: Vec<u32> = vec![5, 0, 2];
+                      if which == 0 { q.traverse_depth_first_node(&mut v, 0); } else { q.traverse_depth_first_with_stack(&mut v, &mut stack); } }
+                    segs.push(format!("{} {}", ["dfn", "dfs"][which], sorted_ids(o)));
+                }
+                { let mut o2: Vec<(u32, u32)> = Vec::new();
+                  { let mut v = DepthCtxVisitor { bv: SimdAabb::splat(bx), out: &mut o2 }; let mut stack: Vec<(u32, u32)> = vec![(4, 4)];
+                    q.traverse_depth_first_node_with_stack_and_context(&mut v, &mut stack, 0, 0u32); }
+                  segs.push(format!("ctx {}", sorted_ids(o2.iter().map(|x| x.0).collect()))); }
+                let sb = SimdAabb::splat(bx);
+                for which in 0..5 {
+                    let o: Mutex<Vec<u32>> = Mutex::new(Vec::new());
+                    {
+                        let vis = |node: &QbvhNode, data: Option<[Option<&u32>; SIMD_WIDTH]>| {
+                            use crate::p3::na::SimdBool as _;
+                            let mask = node.simd_aabb.intersects(&sb);
+                            if let Some(data) = data { let bm = mask.bitmask();
+                                for ii in 0..SIMD_WIDTH { if (bm & (1 << ii)) != 0 { if let Some(d) = data[ii] { o.lock().unwrap().push(*d); } } } }
+                            SimdVisitStatus::MaybeContinue(mask)
+                        };
+                        match which {
+                            0 => q.traverse_depth_first_parallel(&vis),
+                            1 => pool(1).install(|| q.traverse_depth_first_parallel(&vis)),
+                            2 => pool(2).install(|| q.traverse_depth_first_parallel(&vis)),
+                            3 => pool(8).install(|| q.traverse_depth_first_parallel(&vis)),
+                            _ => { if !q.raw_nodes().is_empty() { let ee = AtomicBool::new(false); q.traverse_depth_first_node_parallel(&vis, &ee, 0); } }
+                        }
+                    }
+                    segs.push(format!("{} {}", ["par", "par1", "par2", "par8", "parn"][which], sorted_ids(o.into_inner().unwrap())));
+                }
+                segs.join(" ")
+            }));
+            r.unwrap_or_else(|_| "PANIC".into())
+        }
+        // best-first entry points (root / node variant) with a point-distance visitor: `<cost> <leaf>` or `none`
+        "bfirst" => {
+            let (q, cur, _) = replay_cur(a, false);
+            let _bx = rd_box(a);
+            let pt = d3::p(a);
+            let q = match q { Some(q) => q, None => return "PANIC".into() };
+            let r = catch_unwind(AssertUnwindSafe(|| {
+                let mut segs: Vec<String> = Vec::new();
+                for which in 0..2 {
+                    let mut v = BfVisitor { p: pt, cur: &cur };
+                    let r = if which == 0 { q.traverse_best_first(&mut v) } else { q.traverse_best_first_node(&mut v, 0, f64::MAX) };
+                    let name = ["bf", "bfn"][which];
+                    segs.push(match r { None => format!("{} none", name),
+                        Some((_, id)) => { let c = cur.get(id as usize).map(|b| dist2(&pt, b)).unwrap_or(f64::NAN); format!("{} {} {}", name, ff(c), id) } });
+                }
+                segs.join(" ")
+            }));
+            r.unwrap_or_else(|_| "PANIC".into())
         }
         // single-tree depth-first entry points on the final state (oracle only): box query through
         // `traverse_depth_first` + BoundingVolumeIntersectionsVisitor, the same through `traverse_depth_first_with_context`
@@ -394,14 +546,69 @@ fn gen_bvtt(r: &mut Rng, thorough: bool, it: usize) -> (String, String) {
         let mut m = d3::gen_iso(r, lat, if lat { 1.0 } else { 5.0 });
         if r.below(4) == 0 { m.rotation = d3::na::UnitQuaternion::identity(); }
         format!("1 {}", d3::hiso(&m)) };
-    let modelled = !h1.ops.iter().chain(h2.ops.iter()).any(|o| o.starts_with('B') || o.starts_with('C'));
-    ((if modelled { "bvtt" } else { "bvtto" }).to_string(), format!("{} {} {}", h1.args(), h2.args(), pose))
+    // rebalance / clear_and_rebuild are modelled too: every pair of histories is model-compared
+    ("bvtt".to_string(), format!("{} {} {}", h1.args(), h2.args(), pose))
+}
+
+/// tree pairs for `bvttall` (every simultaneous entry point, sequential and parallel): trees of DIFFERENT depth in both
+/// orders (a single leaf node with 1..3 / 4 leaves against a deeper tree), equal trees, empty trees, emptied trees
+fn gen_bvttall(r: &mut Rng, thorough: bool, it: usize) -> (String, String) {
+    let lat = it % 2 == 0;
+    let big = if thorough { 200u64 } else { 70 };
+    let empty = || Hist::new(1);
+    let emptied = |r: &mut Rng| { let mut h = Hist::new(4); for id in 0..3 { let b = gen_box(r, 0, lat); h.ins(id, b); } h.refit(0.0);
+                                  for id in 0..3 { h.rem(id); } h.refit(0.0); h };
+    let balanced = it % 3 == 1;
+    let tiny = 1 + r.below(3) as usize;
+    let deep = 5 + r.below(big) as usize;
+    let mid = 5 + r.below(12) as usize;
+    let deeper = 40 + r.below(big) as usize;
+    let any1 = 1 + r.below(big) as usize;
+    let any2 = 1 + r.below(big) as usize;
+    let small = 1 + r.below(20) as usize;
+    let rb1 = r.bool(); let rb2 = r.bool();
+    let (h1, h2): (Hist, Hist) = match it % 12 {
+        0 => { let a = sized_history(r, tiny, lat, false); let b = sized_history(r, deep, lat, balanced); (a, b) }   // 1..3 leaves: trailing lanes invalid
+        1 => { let a = sized_history(r, deep, lat, balanced); let b = sized_history(r, tiny, lat, false); (a, b) }
+        2 => { let a = sized_history(r, 4, lat, false); let b = sized_history(r, deep, lat, balanced); (a, b) }      // full leaf node
+        3 => { let a = sized_history(r, deep, lat, balanced); let b = sized_history(r, 4, lat, false); (a, b) }
+        4 => { let a = sized_history(r, mid, lat, false); let b = sized_history(r, deeper, lat, balanced); (a, b) }  // depth 2 vs deeper
+        5 => { let a = sized_history(r, deeper, lat, balanced); let b = sized_history(r, mid, lat, false); (a, b) }
+        6 => { let h = sized_history(r, any1, lat, balanced); let g = Hist { ops: h.ops.clone(), live: h.live.clone(), boxes: h.boxes.clone() }; (h, g) } // equal trees
+        7 => { let b = sized_history(r, small, lat, false); (empty(), b) }
+        8 => { let a = sized_history(r, small, lat, false); let b = if rb1 { empty() } else { emptied(r) }; (a, b) }
+        9 => { let a = emptied(r); let b = sized_history(r, small, lat, balanced); (a, b) }
+        10 => { let a = sized_history(r, 1 + tiny, lat, true); let b = sized_history(r, 12 + deep, lat, true); (a, b) } // both rebuilt
+        _ => { let a = sized_history(r, any1, lat, rb1); let b = sized_history(r, any2, lat, rb2); (a, b) }
+    };
+    let pose = if r.below(2) == 0 { "0".to_string() } else {
+        let mut m = d3::gen_iso(r, lat, if lat { 1.0 } else { 5.0 });
+        if r.below(3) == 0 { m.rotation = d3::na::UnitQuaternion::identity(); }
+        format!("1 {}", d3::hiso(&m)) };
+    ("bvttall".to_string(), format!("{} {} {}", h1.args(), h2.args(), pose))
+}
+
+/// a tree, a query box and a query point for `travall` (every single-tree entry point)
+fn gen_travall(r: &mut Rng, thorough: bool, it: usize) -> (String, String) {
+    let lat = it % 2 == 0;
+    let n = match it % 5 { 0 => r.below(4) as usize, 1 => 4 + r.below(3) as usize, _ => 1 + r.below(if thorough { 200 } else { 80 }) as usize };
+    let h = sized_history(r, n, lat, it % 3 == 2);
+    let live: Vec<usize> = (0..h.live.len()).filter(|i| h.live[*i]).collect();
+    let qb = if live.is_empty() || r.below(4) == 0 { gen_box(r, 0, lat) } else { let bb = h.boxes[*r.pick(&live)]; moved(r, &bb, lat) };
+    let pt = if live.is_empty() || r.below(3) == 0 { d3::gen_p(r, lat, 60.0) }
+        else { let b = h.boxes[*r.pick(&live)]; match r.below(3) { 0 => b.mins, 1 => d3::na::center(&b.mins, &b.maxs), _ => b.maxs + d3::gen_v(r, lat, 2.0) } };
+    ((if it % 2 == 0 || it % 5 == 0 { "travall" } else { "bfirst" }).to_string(), format!("{} {} {}", h.args(), hb(&qb), d3::hp(&pt)))
 }
 
 pub fn gen(r: &mut Rng, thorough: bool) -> Vec<(String, String)> {
     let mut v = Vec::new();
     let nb = if thorough { 240 } else { 60 };
     for it in 0..nb { v.push(gen_bvtt(r, thorough, it)); }
+    // every simultaneous / single-tree entry point, sequential and parallel (feature `parallel`)
+    let nba = if thorough { 180 } else { 60 };
+    for it in 0..nba { v.push(gen_bvttall(r, thorough, it)); }
+    let nta = if thorough { 200 } else { 60 };
+    for it in 0..nta { v.push(gen_travall(r, thorough, it)); }
     // single-tree depth-first entry points with box / context / ray visitors
     let nd = if thorough { 200 } else { 40 };
     for it in 0..nd {
